@@ -144,6 +144,8 @@ type KV struct {
 	F    *FaultPoints
 	// Observe, if set, is called after every committed write transaction with the shelves touched.
 	Observe func(name string, shelves map[string]int)
+	// ObserveOps, if set, is called after every committed write transaction with its operations.
+	ObserveOps func(name string, ops []KVOp)
 	// NoYield makes this store transparent to the scheduler (still fault-injecting).
 	NoYield bool
 	// RollbackPending counts write transactions that were rolled back and whose OnRollback
@@ -162,10 +164,18 @@ func (k *KV) Close(ctx context.Context) error {
 	return nil
 }
 
+// KVOp is one committed Put or Delete.
+type KVOp struct {
+	Shelf string
+	Key   []byte
+	Del   bool
+}
+
 type wtx struct {
 	stoabs.WriteTx
 	kv      *KV
 	shelves map[string]int
+	ops     []KVOp
 }
 
 func (t *wtx) Store() stoabs.KVStore { return t.kv }
@@ -191,6 +201,9 @@ func (w *writer) Put(key stoabs.Key, value []byte) error {
 		return ErrInjected
 	}
 	w.tx.shelves[w.shelf]++
+	if w.tx.kv.ObserveOps != nil {
+		w.tx.ops = append(w.tx.ops, KVOp{Shelf: w.shelf, Key: append([]byte(nil), key.Bytes()...)})
+	}
 	return w.Writer.Put(key, value)
 }
 
@@ -199,6 +212,9 @@ func (w *writer) Delete(key stoabs.Key) error {
 		return ErrInjected
 	}
 	w.tx.shelves[w.shelf]++
+	if w.tx.kv.ObserveOps != nil {
+		w.tx.ops = append(w.tx.ops, KVOp{Shelf: w.shelf, Key: append([]byte(nil), key.Bytes()...), Del: true})
+	}
 	return w.Writer.Delete(key)
 }
 
@@ -251,11 +267,13 @@ func (k *KV) write(ctx context.Context, op string, fn func(*wtx) error, opts []s
 	}
 	rest, after, rollback := splitHooks(opts)
 	var shelves map[string]int
+	var ops *[]KVOp
 	crashBefore := false
 	k.S.EnterTx()
 	err := k.Real.Write(ctx, func(tx stoabs.WriteTx) error {
 		w := &wtx{WriteTx: tx, kv: k, shelves: map[string]int{}}
 		shelves = w.shelves
+		ops = &w.ops
 		if err := fn(w); err != nil {
 			return err
 		}
@@ -294,6 +312,9 @@ func (k *KV) write(ctx context.Context, op string, fn func(*wtx) error, opts []s
 	k.Commits.Add(1)
 	if k.Observe != nil {
 		k.Observe(k.Name, shelves)
+	}
+	if k.ObserveOps != nil && ops != nil {
+		k.ObserveOps(k.Name, *ops)
 	}
 	if !nested && k.F.Hit(KVCrashAfterCommit, k.site(op)) {
 		k.Inc.Kill(KVCrashAfterCommit + " " + k.site(op))
